@@ -29,7 +29,17 @@ use white_whale_std::pool_network::asset::{Asset, AssetInfo, PairInfo, PairType}
 use white_whale_std::pool_network::pair as p;
 
 const E18: u128 = 1_000_000_000_000_000_000;
-const DENOMS: [&str; 2] = ["uluna", "uusd"];
+/// denom pairs the worlds are built with (`dn=<k>` on the init line; the model does not look at it):
+/// plain denoms, an IBC voucher (upper-case hex), a token-factory denom whose last segment is the other
+/// asset's denom, a denom that is a prefix of the other one, mixed case
+const DENOM_SETS: [[&str; 2]; 6] = [
+    ["uluna", "uusd"],
+    ["uwhale", "factory/migaloo1creator/uwhale"],
+    ["ibc/27394FB092D2ECCD56123C74F36E4C1F926001CEADA9CA97EA622B25F41E5EB2", "uusd"],
+    ["uusd", "uusdc"],
+    ["uwhale", "ibc/B3504E092456BA618CC28AC671A71FB08C6CA0FD0BE7C8A5B5A3E2DD933CC9E4"],
+    ["factory/migaloo1creator/Ulp", "factory/migaloo1creator/ulp"],
+];
 const MIN_LIQ: u128 = 1000;
 const THRESHOLD: u128 = 1000;
 const JUNK: u128 = 1_000_000_000_000;
@@ -39,6 +49,7 @@ struct World {
     pair: Addr,
     lp: Addr,
     kinds: [bool; 2], // true = native
+    denoms: [&'static str; 2],
     tokens: [Option<Addr>; 2],
     users: Vec<Addr>,
     owner: Addr,
@@ -88,7 +99,7 @@ fn u512(x: u128) -> Uint512 {
 impl World {
     fn info(&self, a: usize) -> AssetInfo {
         if self.kinds[a] {
-            AssetInfo::NativeToken { denom: DENOMS[a].into() }
+            AssetInfo::NativeToken { denom: self.denoms[a].into() }
         } else {
             AssetInfo::Token { contract_addr: self.tokens[a].as_ref().unwrap().to_string() }
         }
@@ -99,7 +110,7 @@ impl World {
     }
     fn bal(&self, who: &Addr, a: usize) -> u128 {
         if self.kinds[a] {
-            self.app.wrap().query_balance(who, DENOMS[a]).unwrap().amount.u128()
+            self.app.wrap().query_balance(who, self.denoms[a]).unwrap().amount.u128()
         } else {
             self.cw20_bal(self.tokens[a].as_ref().unwrap(), who)
         }
@@ -214,7 +225,9 @@ impl World {
     }
 }
 
-fn build(kinds: [bool; 2], fees: (u128, u128, u128), n: usize, a: u128, bb: u128, ss: Option<(u64, u8, u8)>) -> Result<Option<World>, String> {
+fn build(kinds: [bool; 2], fees: (u128, u128, u128), n: usize, a: u128, bb: u128, ss: Option<(u64, u8, u8)>, dn: usize) -> Result<Option<World>, String> {
+    #[allow(non_snake_case)]
+    let DENOMS: [&'static str; 2] = DENOM_SETS[dn % DENOM_SETS.len()];
     let owner = Addr::unchecked("owner");
     let minter = Addr::unchecked("minter");
     let collector = Addr::unchecked("collector");
@@ -314,7 +327,7 @@ fn build(kinds: [bool; 2], fees: (u128, u128, u128), n: usize, a: u128, bb: u128
             }
         }
     }
-    Ok(Some(World { app, pair, lp, kinds, tokens, users, owner, collector, collector2, minter, cp: ss.is_none(), chg: [0; 2], sent: [0; 2], brn: [0; 2] }))
+    Ok(Some(World { app, pair, lp, kinds, denoms: DENOMS, tokens, users, owner, collector, collector2, minter, cp: ss.is_none(), chg: [0; 2], sent: [0; 2], brn: [0; 2] }))
 }
 
 /// the amounts of the pair's `swap` response attributes: (return, spread, swap fee, protocol fee, burn fee)
@@ -405,7 +418,8 @@ impl PairEngine {
         self.last_provide = None;
         self.nusers = n as usize;
         self.ubal = [a, bb];
-        match build([k0, k1], (pf, sf, bf), n as usize, a, bb, ss) {
+        let dn = num("dn").unwrap_or(0) as usize;
+        match build([k0, k1], (pf, sf, bf), n as usize, a, bb, ss, dn) {
             Ok(Some(w)) => {
                 let o = w.observe();
                 let s = w.show(&o);
@@ -513,7 +527,7 @@ impl PairEngine {
                 let mut funds: Vec<Coin> = vec![];
                 for k in 0..2 {
                     if w.kinds[k] && ds[k] > 0 {
-                        funds.push(coin(ds[k], DENOMS[k]));
+                        funds.push(coin(ds[k], w.denoms[k]));
                     }
                 }
                 let mut assets = [Asset { info: w.info(0), amount: d0.into() }, Asset { info: w.info(1), amount: d1.into() }];
@@ -718,11 +732,11 @@ impl PairEngine {
                     _ => return "bad-op".into(),
                 };
                 let sender = w.users[u].clone();
-                let (kinds, tokens, lp) = (w.kinds, w.tokens.clone(), w.lp.clone());
+                let (kinds, tokens, lp, denoms) = (w.kinds, w.tokens.clone(), w.lp.clone(), w.denoms);
                 let app = &mut w.app;
                 guarded(|| {
                     if which < 2 && kinds[which] {
-                        app.send_tokens(sender.clone(), pair.clone(), &[coin(amt, DENOMS[which])])
+                        app.send_tokens(sender.clone(), pair.clone(), &[coin(amt, denoms[which])])
                     } else if which <= 2 {
                         let t = if which == 2 { lp.clone() } else { tokens[which].clone().unwrap() };
                         app.execute_contract(sender.clone(), t, &Cw20ExecuteMsg::Transfer { recipient: pair.to_string(), amount: amt.into() }, &[])
@@ -738,7 +752,7 @@ impl PairEngine {
                 };
                 let sender = w.users[u].clone();
                 let funds: Vec<Coin> = match dn {
-                    0 | 1 => vec![coin(amt, DENOMS[dn])],
+                    0 | 1 => vec![coin(amt, w.denoms[dn])],
                     2 => vec![coin(amt, "ujunk")],
                     _ => vec![],
                 };
@@ -826,11 +840,12 @@ impl PairEngine {
         let info = w.info(dir);
         let native = w.kinds[dir];
         let token = w.tokens[dir].clone();
+        let denom = w.denoms[dir];
         let to_s = to.map(|t| w.users[t].to_string());
         let app = &mut w.app;
         guarded(|| {
             if native || force_execute {
-                let funds: Vec<Coin> = if native { vec![coin(sent, DENOMS[dir])] } else { vec![] };
+                let funds: Vec<Coin> = if native { vec![coin(sent, denom)] } else { vec![] };
                 app.execute_contract(
                     sender.clone(),
                     pair.clone(),
@@ -938,9 +953,9 @@ impl PairEngine {
                 1 => (whole / (1 + rng.below(4) as u128)).max(1) * 10u128.pow(d1),
                 _ => whole * (1 + rng.below(4) as u128) * 10u128.pow(d1),
             };
-            return format!("init pair k0={k0} k1={k1} p={pf} s={sf} b={bf} n=4 a={a} bb={b2} curve=ss amp={amp} d0={d0} d1={d1}");
+            return format!("init pair k0={k0} k1={k1} p={pf} s={sf} b={bf} n=4 a={a} bb={b2} curve=ss amp={amp} d0={d0} d1={d1} dn={}", rng.below(DENOM_SETS.len() as u64));
         }
-        format!("init pair k0={k0} k1={k1} p={pf} s={sf} b={bf} n=4 a={a} bb={b2}")
+        format!("init pair k0={k0} k1={k1} p={pf} s={sf} b={bf} n=4 a={a} bb={b2} dn={}", rng.below(DENOM_SETS.len() as u64))
     }
     fn gen_ms(rng: &mut Rng) -> String {
         match rng.below(20) {
